@@ -81,6 +81,14 @@ class Runner:
         self.log.append(b)
         return s, r
 
+    def ctype_variant(self, kind):
+        """the media type as clients really send it: bare, or with parameters"""
+        base = W.CT[kind]
+        v = self.rng.choice(["", "", "; charset=utf-8", ";charset=UTF-8", "; charset=\"utf-8\"", "; component=VEVENT" if kind == "calendar" else "; version=3.0"])
+        if v:
+            self.res.count("content_type_with_parameter")
+        return base + v
+
     def tags(self, colpath):
         s, r = self.w.propfind(self.w.url(colpath), [X.P_SYNCTOKEN, X.P_CTAG_CS], "0", record=False)
         try:
@@ -98,7 +106,7 @@ class Runner:
         self.k += 1
         ext = ".ics" if kind == "calendar" else ".vcf"
         name = "v%d%s" % (self.k, ext)
-        ctype = W.CT[kind]
+        ctype = self.ctype_variant(kind)
         uid = "c14-%d-%d" % (self.cfg["seed"] % 1000, self.k)
         body = gen.ical(rng, uid, "tok%d" % self.k) if kind == "calendar" else gen.vcard(rng, uid, "tok%d" % self.k)
         where = f"{w.fe_kind}/{backend}/{kind}"
@@ -169,7 +177,7 @@ class Runner:
         self.k += 1
         ext = ".ics" if kind == "calendar" else ".vcf"
         name = "i%d%s" % (self.k, ext)
-        ctype = W.CT[kind]
+        ctype = self.ctype_variant(kind)
         where = f"{w.fe_kind}/{backend}/{kind}"
         target = w.url(colpath, name)
         old = None
@@ -284,7 +292,8 @@ def check(tier, seed, t0):
               ("share of valid bodies accepted (percent)", 100 * c.get("valid_accepted", 0) // gen_n, 90),
               ("fixed-point checks", c.get("fixed_point_checks", 0), 500 if not th else 7000),
               ("invalid bodies generated", c.get("invalid_generated", 0), 500 if not th else 3000),
-              ("invalid bodies refused", c.get("invalid_refused", 0) + c.get("invalid_refused-5xx", 0), 300)]
+              ("invalid bodies refused", c.get("invalid_refused", 0) + c.get("invalid_refused-5xx", 0), 300),
+              ("uploads whose Content-Type carries a parameter", c.get("content_type_with_parameter", 0), 200)]
     for cls in ("arbitrary", "empty", "truncated-line", "truncated-byte", "control-char", "no-begin", "no-end", "wrong-root", "broken-nesting"):
         guards.append(("invalid class " + cls, c.get("invalid:" + cls, 0), 4))
     return common.finish(PROP, tier, seed, "exploration", merged, failures, RULE, t0, guards=guards,
